@@ -395,8 +395,10 @@ class declare_file:
 
     # the caller has checked the claim (_check_declaration) and, for a product, the registered globs
     # (_raise_if_glob_match): "This does not check whether another declaration already claims `path`"
-    requires = lambda self, path, file_state: wrap_bool(tm.And(
-        tm.Not(claimed(db_of(self), path)),
+    # a path under an attached static tree may already be claimed by the tree (an input adopted by it): the
+    # function then refuses a step as creator before it creates anything
+    requires = lambda self, creator, path, file_state: wrap_bool(tm.And(
+        tm.Or(tm.Not(claimed(db_of(self), path)), tm.And(View(db_of(self)).owned(path), tm.Not(is_tree_t(creator)))),
         tm.Implies(tm.Or(tm.Eq(I(file_state), tm.mk_int(FileState.PLANNED.value)),
                          tm.Eq(I(file_state), tm.mk_int(FileState.VOLATILE.value))),
                    tm.Not(View(db_of(self)).globmatch(path)))))
@@ -1112,3 +1114,153 @@ class define_step:
              3: LoopSpec(locals=dict(unconfirmed=ty.SetOf(C03_inputs.FileH))),
              4: LoopSpec(forall=dict(k=ty.Int, m=ty.Int), invariant=_ds_out_inv, havoc=("self",), modifies={"self": ["db"]}),
              5: LoopSpec(forall=dict(k=ty.Int, m=ty.Int), invariant=_ds_vol_inv, havoc=("self",), modifies={"self": ["db"]})}
+
+
+# ---------------------------------------------------------------- _resolve_supply_file: observing never acquires ownership
+
+
+def WF(db, path) -> tm.T:
+    """Ghost choice function: the file node (attached or not) with this label, if there is one (unique index)."""
+    return db.fact("filenode", path, sort=INT)
+
+
+def _file_row_none_keys(args):
+    """No-row fact of find_and_detached(File, path) for the node that would carry the label."""
+    c = cur()
+    db = c.data["cursor"].db
+    axioms(db, args[1])
+    return [dict(node=WF(db, args[1])), dict(node=W(db, args[1]))]
+
+
+def _file_row_witness(keys, args, row):
+    c = cur()
+    db = c.data["cursor"].db
+    # the unique index makes the returned row the node of this label; tie the abstract view to it
+    axioms(db, args[1], keys["node"])
+    c.pc.append(schema_invariants(db, keys["node"], WF(db, args[1])))
+    c.data["C08.file_key"] = keys["node"]
+
+
+RSF_QUERIES = [
+    graphdb.query("SELECT i, detached FROM node WHERE kind", ty.TupleOf(ty.Int, ty.Bool), witness=_file_row_witness,
+                  none_keys=_file_row_none_keys),
+    graphdb.query("SELECT state FROM file WHERE node", ty.TupleOf(ty.Int), none_keys=lambda a: [dict(file=I(a[0]))]),
+    ("SELECT 1 FROM dependency WHERE source", ty.TupleOf(ty.Int)),
+]
+
+
+def _rsf_create_guard(e, self, step, path):
+    """A node is created for an observed path only (a) by the attached static tree that owns the path, as a static
+    file to be confirmed, when no attached file node has the path; or (b) without creator and UNDECLARED, when no file
+    node exists or the existing one has no creator, and no attached tree owns the path."""
+    c = cur()
+    db = db_of(self)
+    v = View(db)
+    if e.node_type is not File:
+        return False
+    state = e.kwargs.get("state")
+    if e.creator is None:
+        k = c.data.get("C08.file_key")
+        orphan = tm.TRUE if k is None else graphdb.column(db, "node", "creator", k).null
+        return wrap_bool(tm.And(tm.Eq(I(state), tm.mk_int(FileState.UNDECLARED.value)), tm.Eq(S(e.label), S(path)),
+                                tm.Not(v.claimed(path)), tm.Not(v.owned(path)), orphan))
+    cr = e.creator
+    return wrap_bool(tm.And(tm.mk_bool(cr._cls is StaticTree), owns_t(db, cr.i, path), tm.Eq(S(e.label), S(path)),
+                            tm.Eq(I(state), tm.mk_int(FileState.UNCONFIRMED.value)), tm.Not(v.claimed(path))))
+
+
+def _rsf_finish(c, outcome, args, old):
+    creates = [e for e in c.trace if e.kind == "create"]
+    c.prove("at_most_one_node_created", tm.mk_bool(len(creates) <= 1), kind="trace")
+    writes = [e for e in c.trace if e.kind == "sql" and not e.norm.upper().startswith("SELECT")]
+    c.prove("no_other_write", tm.mk_bool(len(writes) == 0), kind="trace")
+    lost = [e for e in c.trace if e.kind in ("after_lost_product", "delete_hash")]
+    c.prove("no_creator_loses_a_product", tm.mk_bool(len(lost) == 0), kind="trace")
+
+
+def _rsf_post(self, step, path, old):
+    """Existing claims are kept; a claim on the path appears only by adoption through the owning tree (STATIC)."""
+    db, db0 = db_of(self), db_of(old.self)
+    if cur().data.get("active") != "stepup/core/workflow.py::Workflow._resolve_supply_file":
+        db.bump()  # stub use: the graph may have changed
+    nv, ov = View(db), View(db0)
+    static = tm.mk_int(FileRole.STATIC.value)
+    return wrap_bool(tm.And(
+        tm.Implies(ov.claimed(path), tm.And(nv.claimed(path), tm.Eq(nv.role(path), ov.role(path)), tm.Eq(nv.creator(path), ov.creator(path)))),
+        tm.Implies(tm.And(nv.claimed(path), tm.Not(ov.claimed(path))), tm.And(ov.owned(path), tm.Eq(nv.role(path), static))),
+        common.frame_view(ov, nv, changed_path=path)))
+
+
+def _rsf_wf(args):
+    return workflow_spec(RSF_QUERIES, targets=ty.SetOf(ty.Str)).fresh("workflow")
+
+
+@contract("stepup/core/workflow.py::Workflow._resolve_supply_file", props=["C08", "C02"])
+class resolve_supply_file:
+    args = dict(self=_rsf_wf, step=common.node_spec(Step), path=ty.Str, require_new_edge=ty.Bool)
+    env = dict(Path=trusted.Path)
+    may_raise = {GraphError: None, ConsistencyError: None}
+    events = {"create": _rsf_create_guard}
+    finish = _rsf_finish
+    ensures = _rsf_post
+    modifies = []
+
+
+# ---------------------------------------------------------------- _supply_files: the effect assumed by its callers, proved
+
+extract.COMP_AS_LOOP.add("stepup/core/workflow.py::Workflow._supply_files")
+
+
+@contract("stepup/core/trellis.py::Node.check_sources_acyclic", props=[], verify=False,
+          note="raises CyclicError when one of the candidate sources is a transitive sink of this node (read only; the "
+               "closure RECURSE_SINKS is assumed, C09)")
+class check_sources_acyclic:
+    may_raise = {common.excmod.CyclicError: None}
+    modifies = []
+
+
+def _monotone(ov, nv):
+    """Claims only grow, and only by adoption of a path under an attached static tree (as a STATIC claim); step
+    labels, trees and glob registrations are unchanged."""
+    c = cur()
+    p = tm.Var(c.fresh_name("p!bound"), STR)
+    static = tm.mk_int(FileRole.STATIC.value)
+    kept = tm.Implies(ov.claimed(p), tm.And(nv.claimed(p), tm.Eq(nv.role(p), ov.role(p)), tm.Eq(nv.creator(p), ov.creator(p))))
+    added = tm.Implies(tm.And(nv.claimed(p), tm.Not(ov.claimed(p))), tm.And(ov.owned(p), tm.Eq(nv.role(p), static)))
+    claims = tm.ForAll([(p.s, STR)], tm.And(kept, added), patterns=[[nv.claimed(p)], [nv.role(p)], [nv.creator(p)]])
+    return tm.And(claims, common.frame_view(ov, nv, claims_changed=True))
+
+
+def _sf_inv(e):
+    return wrap_bool(_monotone(View(db_of(e.old.self)), View(db_of(e.self))))
+
+
+from contracts.C03_inputs import supply_files_assumed as _sf  # noqa: E402
+
+_FileRec = ty.Rec(File, dict(i=ty.Int, label=ty.Str), name="File")
+_SupplyRec = ty.Rec(C03_inputs.SupplyInfo, dict(file=_FileRec, state=ty.EnumOf(FileState), detached=ty.Bool,
+                                                new_idep=ty.Opt(ty.Int)), name="_SupplyInfo")
+ResolvedRec = ty.TupleOf(ty.Make(lambda n: fresh_node(File, None, "file")), ty.EnumOf(FileState), ty.Bool, ty.Bool)
+
+
+def _rsf_result(self):
+    return ty.Make(lambda n: (fresh_node(File, self, "supplied"), ty.EnumOf(FileState).fresh(n + ".state"),
+                              ty.Bool.fresh(n + ".detached"), ty.Bool.fresh(n + ".new_relation")))
+
+
+resolve_supply_file.result = _rsf_result
+
+_sf.props = list(_sf.props) + ["C08", "C02"]
+_sf.verify = True
+_sf.args = dict(self=lambda a: workflow_spec([]).fresh("workflow"), step=common.node_spec(Step), paths=ty.SeqOf(ty.Str),
+                require_new_edge=ty.Bool)
+_sf.may_raise = {GraphError: None, ConsistencyError: None}
+_sf.assume_post = None
+_sf.ensures = lambda self, old: wrap_bool(_monotone(View(db_of(old.self)), View(db_of(self))))
+_sf.loops = {
+    0: LoopSpec(locals=dict(resolved=ty.SeqOf(ty.TupleOf(_FileRec, ty.EnumOf(FileState), ty.Bool, ty.Bool))),
+                invariant=_sf_inv, havoc=("self",), modifies={"self": ["db"]}),
+    1: LoopSpec(locals=dict(new_file_is=ty.SeqOf(ty.Int)), invariant=_sf_inv),
+    2: LoopSpec(locals=dict(comp_ret3=ty.SeqOf(_SupplyRec)), invariant=_sf_inv, havoc=("self",),
+                modifies={"self": ["db"]}),
+}
